@@ -10,6 +10,7 @@ import (
 	"io/fs"
 	stdslog "log/slog"
 	"os"
+	"path/filepath"
 	"strings"
 	"time"
 
@@ -689,6 +690,10 @@ func c01table(c *Ctx) {
 			c.R.Sample(idx, map[string]any{"customs": cdesc, "levels": len(levels), "entry_points": len(eps), "logger_kinds": 4, "histories": len(states)}, map[string]any{"cells": cells})
 		}
 	})
+	// the log files of this process (and their scratch directories) are done with
+	for _, p := range c01watched {
+		_ = os.RemoveAll(filepath.Dir(p))
+	}
 }
 
 func className(l slog.Level) string {
